@@ -270,6 +270,7 @@ func canonAccept(model string) string {
 }
 
 func runC17(r *Result, d *drv.Driver, tier string, seed int64, replay string) {
+	c17ZeroValueServer(r)
 	maxLen := 4
 	if tier == "thorough" {
 		maxLen = 6
@@ -386,4 +387,61 @@ func runC17(r *Result, d *drv.Driver, tier string, seed int64, replay string) {
 type valueListener struct {
 	net.Listener
 	hook func()
+}
+
+// c17ZeroValueServer: the accept loop of a Server used exactly as its zero value allows - no Log, no handlers, no callbacks -
+// through temporary errors (the path that reports and backs off), a served connection and a permanent error.
+func c17ZeroValueServer(r *Result) {
+	for _, nTemp := range []int{1, 3} {
+		key := fmt.Sprintf("zero-value Server (no Log configured): %d temporary Accept error(s), a connection, a permanent error", nTemp)
+		r.eval(key, true)
+		s := &kmip.Server{}
+		l := rec.NewListener()
+		for i := 0; i < nTemp; i++ {
+			l.Push(rec.AcceptStep{Temporary: true})
+		}
+		sc, cc := rec.Pipe()
+		l.Push(rec.AcceptStep{Conn: rec.NewConn(sc, 1)})
+		init := make(chan struct{})
+		ret := make(chan error, 1)
+		go func() {
+			defer func() {
+				if p := recover(); p != nil {
+					ret <- fmt.Errorf("Serve panicked: %v", p)
+					select {
+					case <-init:
+					default:
+						close(init)
+					}
+				}
+			}()
+			ret <- s.Serve(l, init)
+		}()
+		<-init
+		_ = cc.SetDeadline(time.Now().Add(5 * time.Second))
+		req := kmip.Request{Header: kmip.RequestHeader{Version: kmip.ProtocolVersion{Major: 1, Minor: 4}, BatchCount: 1},
+			BatchItems: []kmip.RequestBatchItem{{Operation: kmip.OPERATION_DISCOVER_VERSIONS, RequestPayload: kmip.DiscoverVersionsRequest{}}}}
+		var resp kmip.Response
+		err := kmip.NewEncoder(cc).Encode(&req)
+		if err == nil {
+			err = kmip.NewDecoder(cc).Decode(&resp)
+		}
+		obs := fmt.Sprintf("served=%v ", err == nil)
+		cc.Close()
+		permanent := fmt.Errorf("accept: broken")
+		l.Push(rec.AcceptStep{Permanent: true, Err: permanent})
+		select {
+		case e := <-ret:
+			obs += fmt.Sprintf("serve-returned-the-permanent-error=%v", e == permanent)
+			if e != permanent {
+				obs += fmt.Sprintf(" (%v)", e)
+			}
+		case <-time.After(5 * time.Second):
+			obs += "serve-still-running"
+		}
+		if obs != "served=true serve-returned-the-permanent-error=true" {
+			r.find(Finding{Kind: "violation", What: "a zero-value Server did not survive temporary Accept errors / did not return the permanent one", Input: key, Expect: "served=true serve-returned-the-permanent-error=true", Actual: obs})
+		}
+		r.Stats["zero-value-accept-scenarios"]++
+	}
 }
